@@ -402,6 +402,13 @@ func (c *Ctx) goKey(k xKey) interface{} {
 }
 
 // xdecrypt runs the real registry dispatch on an element built from abstract layers.
+// xdecryptRefuse: as xdecrypt, for a case the property says must be refused; `refuse` is the oracle line if it is not
+func (c *Ctx) xdecryptRefuse(k xKey, ls []xLayer, tag, refuse string) {
+	c.mustRefuse = refuse
+	defer func() { c.mustRefuse = "" }()
+	c.xdecrypt(k, ls, nil, tag)
+}
+
 func (c *Ctx) xdecrypt(k xKey, ls []xLayer, expect []byte, tag string) {
 	el := c.layersEl(ls, 0)
 	impl := safely(func() string { return outBytes(xmlenc.Decrypt(c.goKey(k), el)) })
@@ -440,6 +447,8 @@ func (c *Ctx) xdecrypt(k xKey, ls []xLayer, expect []byte, tag string) {
 		orc = "key=xmlenc-decrypt-panic:" + tag + " xmlenc.Decrypt panicked: " + impl
 	} else if expect != nil && impl != "ok "+encBytes(expect) {
 		orc = "key=xmlenc-roundtrip:" + tag + " expected the plaintext back, got " + impl
+	} else if c.mustRefuse != "" && strings.HasPrefix(impl, "ok") {
+		orc = c.mustRefuse
 	}
 	// an RSA-wrapped key whose embedded certificate is not the supplied key's must be refused, whatever the ciphertext
 	if orc == "" && k.kind == "r" && strings.HasPrefix(impl, "ok") {
@@ -577,6 +586,50 @@ func (c *Ctx) genC10() {
 			}
 		}
 	}
+	// (ii-b) the plaintext Decrypt returns belongs to the caller: later decryptions (of any cipher) leave it alone
+	{
+		type held struct {
+			name string
+			out  []byte
+			snap []byte
+			want []byte
+		}
+		var hs []held
+		why := ""
+		bcs := blockCiphers()
+		for i := 0; i < 12 && why == ""; i++ {
+			d := bcs[i%len(bcs)]
+			if d.uri == uriGCM {
+				continue // GCM encryption is the known finding of this property; its decryption is sequenced in C11's cases
+			}
+			key := c.randBytes(d.bc.KeySize())
+			p := bytes.Repeat([]byte{byte('A' + i)}, 24+8*(i%3))
+			xmlenc.RandReader = &detReader{c: c}
+			res := safely(func() string {
+				el, err := d.bc.Encrypt(key, p, nil)
+				if err != nil {
+					return "skip" // (GCM encryption is a known finding; nothing to hold)
+				}
+				out, err := d.bc.Decrypt(key, el)
+				if err != nil {
+					return "skip"
+				}
+				hs = append(hs, held{d.name, out, append([]byte{}, out...), p})
+				return "ok"
+			})
+			if strings.HasPrefix(res, "panic") {
+				why = "key=decrypt-sequence-panic " + res
+			}
+			for _, h := range hs {
+				if !bytes.Equal(h.out, h.snap) {
+					why = fmt.Sprintf("key=decrypt-output-unstable the plaintext returned by %s.Decrypt changed when a later element was decrypted (step %d): was %q, now %q", h.name, i, h.snap, h.out)
+					break
+				}
+			}
+		}
+		c.count("c10-held-plaintexts", fmt.Sprint(len(hs)))
+		c.emitOneWay("decryptstable", nil, "done", why)
+	}
 	// (iii) key transports x block ciphers x digests
 	type ktDesc struct {
 		name string
@@ -708,6 +761,35 @@ func (c *Ctx) genC11() {
 						prev[d.bs-1] = dec[d.bs-1] ^ byte(v)
 						c.xdecrypt(xKey{kind: "b", bytes: key}, []xLayer{{alg: sp(d.uri), cipher: "v", ct: ct}}, nil, "padbyte:"+d.name)
 					}
+				}
+			}
+		}
+		// a *wrapped* key of another valid size: a message encrypted under cipher R and relabelled as d (the cipher value is
+		// perfectly valid under R) — the unwrapped key has the wrong size for d and must be refused, not used
+		if d.uri != uriGCM {
+			for _, r := range blockCiphers() {
+				if r.uri == uriGCM || r.uri == d.uri || r.bs != d.bs {
+					continue
+				}
+				for _, kt := range []func() xmlenc.RSA{xmlenc.OAEP, xmlenc.PKCS1v15} {
+					enc := kt()
+					enc.BlockCipher = r.bc
+					xmlenc.RandReader = &detReader{c: c}
+					var el *etree.Element
+					safely(func() string {
+						e, err := enc.Encrypt(c.key("sp").Cert, []byte("<a>relabelled</a>"), nil)
+						if err == nil {
+							el = e
+						}
+						return ""
+					})
+					if el == nil {
+						continue
+					}
+					ls := c.layersOf(el)
+					ls[0].alg = sp(d.uri)
+					c.count("c11-relabelled", d.name+"<-"+r.name)
+					c.xdecryptRefuse(xKey{kind: "r", id: 1}, ls, "relabel:"+d.name+"<-"+r.name, "key=c11-wrong-size-wrapped-key the content was decrypted with an unwrapped key whose size is not the one "+d.name+" takes (message encrypted under "+r.name+" and relabelled)")
 				}
 			}
 		}
